@@ -123,6 +123,19 @@ def gen(rng, tier):
         else:
             tys = [["a", {"in": [["input", narrow]], "out": [["output", narrow]]}], ["b", {"in": [["input", big]], "out": [["output", big]]}]]
         cases.append({"kind": "rand", "nodes_t": tys, "edges": rng.choice([[["a", "b"]], [["a", "b"], ["b", "a"]]])})
+    # names containing "->" (as used in error messages) in complementary positions: distinct edges whose textual rendering
+    # "src->dst" coincides
+    for _ in range(16 if tier == "quick" else 160):
+        names = {"a": [3], "b->c": [3], "a->b": [rng.choice([3, 5])], "c": [rng.choice([3, 5, 5])]}
+        ty = lambda sh: {"in": [["input", list(sh)]], "out": [["output", list(sh)]]}
+        tys = [[n, ty(sh)] for n, sh in names.items()]
+        if rng.random() < 0.3:
+            tys[2][1]["out"] = [["output", None]]
+        rng.shuffle(tys)
+        edges = [["a->b", "c"], ["a", "b->c"]]
+        if rng.random() < 0.5:
+            edges.reverse()
+        cases.append({"kind": "rand", "nodes_t": tys, "edges": edges})
     # very long sequential graphs (chain / ring of > 1000 nodes): any node count
     for j, kind in enumerate(["chain", "ring", "chain"] if tier == "quick" else ["chain", "ring", "chain", "ring", "chain", "ring"]):
         n = rng.choice([1100, 1300, 1700])
